@@ -195,7 +195,7 @@ def run_case(concepts, case, spec):
     if len(ORPHANS) >= 8:
         import gc
         common.drop_views()
-        common._ties.clear()
+        # (ties are weak: they do not keep a lattice alive)
         gc.collect()
         for held in ORPHANS:
             if held is None:
